@@ -285,6 +285,32 @@ theorem mapM_all {α β : Type} {f : α → R β} {P : β → Prop} (hf : ∀ a 
         · exact hf a _ ha
         · exact ih r hr c hc
 
+theorem mapM_all_mem {α β : Type} {f : α → R β} {P : β → Prop} :
+    ∀ (l : List α) (s : List β), (∀ a ∈ l, ∀ b, f a = .ok b → P b) → l.mapM f = .ok s → ∀ c ∈ s, P c := by
+  intro l
+  induction l with
+  | nil => intro s _ h; simp [pure, Except.pure] at h; subst h; simp
+  | cons a l ih =>
+    intro s hf h
+    rw [List.mapM_cons] at h
+    simp only [bind, Except.bind] at h
+    cases ha : f a with
+    | error e => rw [ha] at h; simp at h
+    | ok b =>
+      rw [ha] at h
+      simp only at h
+      generalize hr : l.mapM f = r at h
+      cases r with
+      | error e => simp at h
+      | ok r =>
+        simp only [pure, Except.pure, Except.ok.injEq] at h
+        subst h
+        intro c hc
+        simp only [List.mem_cons] at hc
+        rcases hc with rfl | hc
+        · exact hf a (by simp) _ ha
+        · exact ih r (fun x hx => hf x (by simp [hx])) hr c hc
+
 theorem decodeText_macRoman_small (bs : Bytes) (s : Str) (h : decodeText .macRoman bs = .ok s) : ∀ c ∈ s, c.toNat < 65536 := by
   simp only [decodeText] at h
   refine mapM_all (P := fun c => c.toNat < 65536) ?_ bs s h
